@@ -130,6 +130,22 @@ def cases(tier):
                         yield Case("cart:dim=%d:mask=%d:ri=%g:nr=%d:nmax=%d" % (dim, mask, ri, nr, nm),
                                    {"kind": "cart", "dim": dim, "mask": mask, "ri": ri, "nr": nr, "nmax": nm},
                                    nm >= 3)
+    for c in _extra_cases(tier):
+        yield c
+
+
+def _extra_cases(tier):
+    """sizes beyond the product lattice: radial samplings above 64 (not a multiple of 64) and mode counts above
+    64 - block-wise implementations change behaviour there; and mask flags that are true without being `True`"""
+    for ri, nr, nf in ((0.2, 70, 3), (0.3, 65, 6)) if tier == "quick" else ((0.2, 70, 3), (0.3, 65, 6), (0.1, 96, 10), (0.5, 130, 4)):
+        yield Case("polar:ri=%g:nr=%d:nf=%d" % (ri, nr, nf), {"kind": "polar", "ri": ri, "nr": nr, "nf": nf, "edge": False}, True)
+    for dim, ri, nr, nm in ((16, 0.2, 16, 70), (17, 0.3, 24, 100)) if tier == "quick" else ((16, 0.2, 16, 70), (17, 0.3, 24, 100), (32, 0.1, 40, 150)):
+        for mask in (1, 0):
+            yield Case("cart:dim=%d:mask=%d:ri=%g:nr=%d:nmax=%d" % (dim, mask, ri, nr, nm),
+                       {"kind": "cart", "dim": dim, "mask": bool(mask), "ri": ri, "nr": nr, "nmax": nm}, True)
+    for flag in ("numpy_bool", "int_one"):
+        yield Case("cart:dim=16:mask=%s:ri=0.3:nr=16:nmax=10" % flag,
+                   {"kind": "cart", "dim": 16, "mask": flag, "ri": 0.3, "nr": 16, "nmax": 10}, True)
 
 
 @contextlib.contextmanager
@@ -301,7 +317,12 @@ def _polar(o, ri, nr, nf, edge):
 
 def _cart(o, dim, mask, ri, nr, nmax):
     m = _klmod()
-    out = m.make_kl(nmax, dim, ri=ri, nr=nr, mask=mask)
+    flag = mask
+    if mask == "numpy_bool":          # a true mask flag that is not the literal True ("when masked")
+        flag, mask = numpy.bool_(True), True
+    elif mask == "int_one":
+        flag, mask = 1, True
+    out = m.make_kl(nmax, dim, ri=ri, nr=nr, mask=flag)
     o.stat("lib_calls", 1)
     if not o.check("make_kl_returns_four", isinstance(out, tuple) and len(out) == 4):
         return o
